@@ -2925,7 +2925,10 @@ def constants_from_enum(cls=None, module=None):
 
 @register_finalize_hook
 def validate_macros_hook(config):
-  for ref in iterate_references(config, to=get_configurable(macro)):
+  # The registered wrapper itself: `get_configurable(macro)` would wrap it once
+  # more when a config scope is active, and then match no reference.
+  macro_wrapper = _INVERSE_REGISTRY[macro].wrapper
+  for ref in iterate_references(config, to=macro_wrapper):
     validate_reference(ref, require_evaluation=True)
 
 
